@@ -352,7 +352,7 @@ def crop_checks(recs, lay, m, entry, events):
         probs = []
         if base is None:
             recs.append(Rec('L4', m.name, entry, ev.func, ev.node, False,
-                            'cannot derive the origin of the decoded array from the reads that feed it'))
+                            'cannot derive the origin of the decoded array from the reads that feed it', {'unknown': True}))
             continue
         for j, ix in enumerate(elts):
             if j >= len(axes):
@@ -419,6 +419,7 @@ def crop_checks(recs, lay, m, entry, events):
 def report(ctx, recs, mapping, select=lambda r: True):
     """fold per-(mode, entry) records into one obligation per (rule, site): holds iff it holds in every mode."""
     groups = {}
+    unknown = []
     for r in recs:
         if r.rule not in mapping or not select(r):
             continue
@@ -427,6 +428,10 @@ def report(ctx, recs, mapping, select=lambda r: True):
         rule = mapping[rs[0].rule]
         bad = [r for r in rs if not r.ok]
         modes = sorted({r.mode for r in rs})
+        if bad and all(r.extra.get('unknown') for r in bad):
+            # the analysis could not follow the construct: never a verdict
+            unknown.append(bad[0])
+            continue
         if bad:
             bmodes = sorted({r.mode for r in bad})
             ctx.fail(rule, bad[0].func, bad[0].node, '%s [layout modes: %s; reached from %s]' % (
@@ -436,3 +441,9 @@ def report(ctx, recs, mapping, select=lambda r: True):
             ctx.ok(rule, rs[0].func, rs[0].node, '%s [in %d layout mode(s), from %s]' % (
                 rs[0].msg[:160], len(modes), ', '.join(sorted({r.entry.name for r in rs}))[:80]),
                 sample=rs[0].extra)
+    if unknown and not ctx.findings:
+        r = unknown[0]
+        raise AnalysisError('%s at %s:%s (%s; reached from %s)' % (r.msg, r.func.qualname if r.func else '?',
+                                                                    getattr(r.node, 'lineno', '?'), r.mode, r.entry.name))
+    for r in unknown:
+        ctx.notes.append('not analysed: %s at %s' % (r.msg, r.func.qualname if r.func else '?'))
